@@ -127,6 +127,7 @@ pub fn run(r: &mut Report) {
         }
     }
     inspection_order(r);
+    crate::c15::surplus_failing_sublayout(r);
     // several inspections: EVERY one of them must have exited with 0, also when two of them share a name, in either order
     for (id, runs, expect) in [("two-inspections-second-fails", vec![("i1", "true"), ("i2", "false")], false), ("two-inspections-first-fails", vec![("i1", "false"), ("i2", "true")], false),
                                ("same-name-first-fails", vec![("dup", "false"), ("dup", "true")], false), ("same-name-second-fails", vec![("dup", "true"), ("dup", "false")], false),
